@@ -139,6 +139,7 @@ func census() []gInfo {
 
 type counts struct {
 	starts, startsListening int
+	startPending            int // goroutine created by TaskPrepare that has not entered Socks.Start yet
 	handlers                int
 	readers, readersInRead  int
 	pfreaders, pfInRead     int // pfInRead: parked in io.Copy's Read
@@ -153,6 +154,10 @@ func count() counts {
 			c.starts++
 			if g.state == "IO wait" {
 				c.startsListening++
+			}
+		case "other":
+			if strings.Contains(g.stack, "created by Havoc/pkg/agent.(*Agent).TaskPrepare in goroutine") {
+				c.startPending++
 			}
 		case "handler":
 			c.handlers++
@@ -305,7 +310,7 @@ func (f *fixture) startProxy() (string, bool) {
 				return true
 			}
 			// the goroutine running Socks.Start has returned: Listen failed
-			return c.starts <= before && c.startsListening <= before && !startPending()
+			return c.starts <= before && c.startPending == 0
 		})
 		if ok && listening {
 			f.live = append(f.live, port)
@@ -314,17 +319,6 @@ func (f *fixture) startProxy() (string, bool) {
 		f.operator("socks kill", port) // drop the dead table entry
 	}
 	return "", false
-}
-
-// startPending reports whether a goroutine created by TaskPrepare itself (the one that will
-// call Socks.Start) exists but has not entered Start yet.
-func startPending() bool {
-	for _, g := range census() {
-		if g.kind == "other" && strings.Contains(g.stack, "created by Havoc/pkg/agent.(*Agent).TaskPrepare in goroutine") {
-			return true
-		}
-	}
-	return false
 }
 
 func (f *fixture) forget(port string) {
@@ -372,7 +366,7 @@ func (f *fixture) cleanup(clients []*cli) {
 	}
 	waitFor(waitBound, func() bool {
 		c := count()
-		return c.starts == 0 && c.handlers == 0 && c.readers == 0 && c.pfreaders == 0
+		return c.starts == 0 && c.startPending == 0 && c.handlers == 0 && c.readers == 0 && c.pfreaders == 0
 	})
 	f.a.JobQueue = nil
 	f.a.Tasks = nil
